@@ -312,7 +312,14 @@ def r_feeder(e, R):
         covers_dumps = h_ is not None and any(any(m.ast is h_ for m, l in d.succ if l == "exc" and m.kind == "except") for d in dump_nodes)
         # ... unless the test also requires a flag that is False while serialising and True while sending
         flagged = False
-        for nm in [x for x in ast.walk(t_.ast) if isinstance(x, ast.Name) and x.id in f.locals]:
+        # (the flag may be tested by an enclosing if rather than in the same test: look at every test the EPIPE test is nested in)
+        encl_tests = [t_.ast]
+        p_ = e.prog.parent.get(id(t_.ast))
+        while p_ is not None and p_ is not f.node:
+            if isinstance(p_, ast.If) and p_.test is not t_.ast and any(x is t_.ast for s_ in p_.body for x in ast.walk(s_)):
+                encl_tests.append(p_.test)
+            p_ = e.prog.parent.get(id(p_))
+        for nm in [x for tt in encl_tests for x in ast.walk(tt) if isinstance(x, ast.Name) and x.id in f.locals]:
             defs_all = e.local_defs(f, nm.id)
             if defs_all and all(isinstance(d, ast.Constant) and isinstance(d.value, bool) for d in defs_all):
                 at_dump = [d for dn in dump_nodes for d in e.reaching_defs(f, nm.id, dn)]
